@@ -303,6 +303,18 @@ def probe_maps(gen, spec):
         offs = [struct.unpack_from("<H", strp, 2 + 2 * i)[0] + 2 for i in range(n)]
         newp = struct.pack("<H", n + 1) + b"".join(struct.pack("<H", o) for o in offs) + struct.pack("<H", bad) + strp[2 + 2 * n:]
         out.append(("strict:probe-str-offset-outside-" + what, with_sections({b"STR ": newp})))
+    # 5. one text stored twice with INTERLEAVED ids (copy A, copy B, copy A again) and referenced, as editors do, by
+    #    its last id: an unedited save keeps that reference
+    text = b"probe twin text"
+    offs = [struct.unpack_from("<H", strp, 2 + 2 * i)[0] + 6 for i in range(n)]
+    a_off = len(strp) + 6
+    b_off = a_off + len(text) + 1
+    newp = struct.pack("<H", n + 3) + b"".join(struct.pack("<H", o) for o in offs + [a_off, b_off, a_off]) + strp[2 + 2 * n:] + text + b"\x00" + text + b"\x00"
+    mr = refchk.fields_of(L[b"MRGN"], dict(chunks)[b"MRGN"])
+    k = next((i for i, r in enumerate(mr["records"]) if any(r.values())), None)
+    if k is not None and len(newp) < 65000:
+        mr["records"][k]["_string_id"] = n + 3
+        out.append(("editor:probe-interleaved-string-copies", with_sections({b"STR ": newp, b"MRGN": refchk.build(L[b"MRGN"], mr)})))
     return out
 
 
